@@ -288,6 +288,13 @@ def differential_shard(args):
             res["comment_star"] += 1
         if MARK.search(t.replace("{#*", "")):
             continue
+        # the template file as another editor / platform would have saved it: CR-only or CRLF line endings throughout
+        style = r.random()
+        if style < 0.12:
+            t = t.replace("\r\n", "\n").replace("\n", "\r")
+            res["cr_only_sources"] = res.get("cr_only_sources", 0) + 1
+        elif style < 0.24:
+            t = t.replace("\r\n", "\n").replace("\n", "\r\n")
         c = context(r)
         tm = dict(LIB, main=t)
         a = render(stock, opts, "main", tm, c)
@@ -449,6 +456,51 @@ def extension_cases(ctx, n):
         else:
             ctx.count("usequery_agree")
         ctx.distinct(("uq", tuple(arms), has_else, tuple(sorted(truth.items()))))
+        # the same loaded template rendered again after the answers of the queries changed: a conditional is evaluated at every rendering
+        truth2 = {q: r.random() < 0.5 for q in truth}
+        exp2 = "ELSE" if has_else else ""
+        for k, (neg, q) in enumerate(arms):
+            if truth2[q] != neg:
+                exp2 = "ARM%d" % k
+                break
+        for q, v in truth2.items():
+            setattr(env.target_language_uses_queries, q, (lambda v=v: v))
+        ctx.count("evaluations")
+        ctx.count("usequery_rerenders")
+        try:
+            got2 = env.get_template("t").render()
+        except Exception as e:
+            got2 = "raises %s" % type(e).__name__
+        if got2 != "[" + exp2 + "]":
+            ctx.refute(None, "use-query chain rendered again after the queries' answers changed selected %r, a plain conditional selects %r" % (got2, exp2),
+                       dict(template=t, truth_first=truth, truth_second=truth2))
+        else:
+            ctx.count("usequery_rerender_agree")
+        # and it is evaluated only where control reaches it: arms after the one taken, and chains inside dead code, may name queries
+        # that raise or do not exist, exactly as `{% if true %}..{% elif boom() %}` and `{% if false %}{% if boom() %}` may
+        first = r.choice(sorted(truth))
+        lazy = "{%% %s \"%s\" %%}TAKEN{%% elifuses \"boomq\" %%}X{%% elifnuses \"nosuchq\" %%}Y{%% endifuses %%}" % ("ifuses" if truth2[first] else "ifnuses", first)
+        dead = "{% if false %}{% ifuses \"nosuchq\" %}D{% elifnuses \"boomq\" %}E{% endifuses %}{% endif %}"
+        deadelse = "{% if true %}K{% else %}{% ifnuses \"boomq\" %}D{% endifnuses %}{% endif %}"
+        env2 = CodeGenEnvironmentBuilder(DictLoader({"lazy": "[" + lazy + "]", "dead": "[" + dead + deadelse + "]"}), lctx).set_extensions(UseQuery, JinjaAssert).create()
+        for q, v in truth2.items():
+            setattr(env2.target_language_uses_queries, q, (lambda v=v: v))
+
+        def boom():
+            raise RuntimeError("query evaluated although control never reaches it")
+        setattr(env2.target_language_uses_queries, "boomq", boom)
+        for name, want in (("lazy", "[TAKEN]"), ("dead", "[K]")):
+            ctx.count("evaluations")
+            ctx.count("usequery_lazy_cases")
+            try:
+                gotl = env2.get_template(name).render()
+            except Exception as e:
+                gotl = "raises %s: %s" % (type(e).__name__, str(e)[:80])
+            if gotl != want:
+                ctx.refute(None, "use-query tag evaluated where an ordinary conditional is not (%s): %r instead of %r" % (name, gotl, want),
+                           dict(template=lazy if name == "lazy" else dead + deadelse, truth=truth2))
+            else:
+                ctx.count("usequery_lazy_agree")
         # undefined query must fail, not silently take a branch
         # assert: behaves as a conditional over its argument
         g = G(r)
@@ -505,6 +557,7 @@ def run(ctx):
         ctx.count("differential_agree_ok", res["agree_ok"])
         ctx.count("differential_agree_err", res["agree_err"])
         ctx.count("starred_comment_templates", res["comment_star"])
+        ctx.count("cr_only_template_sources", res.get("cr_only_sources", 0))
         shapes |= res["shapes"]
         for mech, what, wit in res["refs"]:
             ctx.refute(mech, what, wit)
